@@ -2,6 +2,18 @@
 """writes MANIFEST.json from the table below (kept in one place so that it stays valid)"""
 import json
 CHECKS = {
+ "C04": dict(
+   text="Partial proof. Proved over Q on the loop model of C03 for a fixed-step integrator (the oracle that takes every requested step "
+        "whole and proposes it again): for every span of any sign pattern and direction, every dt != 0 and any number of steps, every "
+        "step requested from the integrator equals dt exactly except possibly the last, which is the clipped remainder and shorter "
+        "(loop_fixed_requests), the starting step of a call points at the target and keeps the requested magnitude; all C03 grid theorems "
+        "apply. Tied to the code by bit-exact replay and by exact comparison of recorded requests with dt for all 10 fixed-step explicit/"
+        "splitting methods. Known finding P8: implicit methods without estimator grow the step. Shift/reflection invariance of the "
+        "states is measured on the implementation (rounding level for fixed-step, tolerance level for adaptive methods), not proved.",
+   note="Trusted: Lean kernel, standard axioms, harness. Not in the model: the states y (hence the shift/reflection clause is a "
+        "measurement), IEEE rounding of t + dt.",
+   technique="Lean 4 proof (invariant by induction over fuel) on the C03 loop model + exact request comparison + paired runs",
+   design="5 (C04)"),
  "C03": dict(
    text="Proof over Q about a Lean model of the OdeSystem time-grid state machine (construction, integrate(t) without events, direction "
         "fix, step clipping, buffer growth, loop guard, final-step test, dt update, callbacks assigning dt, faults, status, setters, reset) "
